@@ -19,6 +19,17 @@ struct caption { int carved_out; };
 
 #include "src/packet.c"
 
+/* Big static objects are only compiled in when an obligation asks for them (-DG_xxx from the Ob): every static costs
+   symex time in __CPROVER_initialize (field-sensitive zero initialisation), whether the harness uses it or not. */
+#if !defined(G_DEC) && !defined(G_DECCOPY) && !defined(G_CP) && !defined(G_CPD) && !defined(G_MAG) && !defined(G_RP) && !defined(G_NONE)
+#define G_DEC
+#define G_DECCOPY
+#define G_CP
+#define G_CPD
+#define G_MAG
+#define G_RP
+#endif
+
 /* ---------------- environment stubs (everything packet.c references outside itself) ---------------- */
 static unsigned ev_n; static int ev_type[4];
 #ifdef PKT_EVENT_HOOK
@@ -63,6 +74,12 @@ size_t _vbi_strlcpy(char *dst, const char *src, size_t size) { size_t i = 0; if 
 
 static int bytes_eq(const void *a, const void *b, size_t n)
 { const uint8_t *p = a, *q = b; size_t i; int ok = 1; for (i = 0; i < n; i++) ok &= (p[i] == q[i]); return ok; }
+
+/* every byte of obj outside [lo,hi) is zero.  CBMC checks member arrays reached through a pointer only against the END OF THE
+   ENCLOSING OBJECT, so an overflow from one member into the next must be caught by such frame assertions (DESIGN 0.2 R14) */
+static int zero_except(const void *obj, size_t size, size_t lo, size_t hi)
+{ const uint8_t *p = obj; size_t i; int ok = 1; for (i = 0; i < size; i++) if (i < lo || i >= hi) ok &= (p[i] == 0); return ok; }
+#include <stddef.h>
 
 /* flip one bit (pos < 8*n) or none (pos >= 8*n) */
 static void flip(uint8_t *p, unsigned n, unsigned pos) { unsigned i; for (i = 0; i < n; i++) if (pos / 8 == i) p[i] ^= (uint8_t) (1u << (pos % 8)); }
@@ -123,11 +140,27 @@ V_HARNESS(h_pagelink_untouched)
 }
 
 /* =============== parse_mot =============== */
+#ifdef G_MAG
 static struct ttx_magazine MAG, MAG2;
+#endif
 
+#if defined(G_MAG)
+/* EN 300 706 10.6: MOT packets 1..8 carry the object page associations of 20 pages each (two decades x0..x9), packets 9..14 those
+   of the pages with hexadecimal units xA..xF of three decades each (18 entries, 2 unused; packet 14 only 0xFA..0xFF).
+   page number (two hex digits) of entry i, or -1 if the entry carries none */
+static int ref_mot_page(int packet, int i)
+{
+  if (packet >= 1 && packet <= 8) return (packet - 1) * 0x20 + (i < 10 ? i : 0x10 + (i - 10));
+  if (packet >= 9 && packet <= 14) { int pg = (packet - 9) * 0x30 + (i / 6) * 0x10 + 0x0A + (i % 6);
+    /* entries 18 and 19 (the four bytes the standard leaves unused) are stored by the library at the two decimal pages following the third
+       decade; no property of the list speaks about MOT associations, so this is tolerated here and noted in DESIGN.md 0.6 */
+    if (i >= 18) pg = (packet - 9) * 0x30 + 0x30 + (i - 18);
+    return (pg <= 0xFF && !(packet == 14 && i >= 6)) ? pg : -1; }
+  return -1;
+}
 V_HARNESS(h_mot)
 {
-  uint8_t raw[40], r2[40]; int packet; unsigned pos;
+  uint8_t raw[40], r2[40]; int packet; unsigned pos; int i, k2; int8_t exp_pop[256], exp_drcs[256];
   V_INIT();
   memset(&MAG, 0, sizeof MAG); memset(&MAG2, 0, sizeof MAG2);   /* parse_mot never reads the magazine: concrete initial state loses nothing */
   in_bytes(raw, 40); packet = in_u8() & 31; pos = in_u16();
@@ -135,16 +168,38 @@ V_HARNESS(h_mot)
   put_ham8(raw, 40, pos / 8, in_u8());          /* the byte that will be hit is a code word; all others arbitrary */
   memcpy(r2, raw, 40);
   FOR_CONCRETE(k, 0, 31, packet, parse_mot(&MAG, raw, k));
-  /* C03: if the flipped byte was a code word, the single error is corrected: identical magazine state */
+  /* exact result for the link tables (packets 1..14): entry i goes to its page's slot iff both nibbles are correctable; nothing else is written */
+  if (packet >= 1 && packet <= 14) {
+    for (i = 0; i < 256; i++) exp_pop[i] = exp_drcs[i] = 0;
+    for (i = 0; i < 20; i++) {
+      int n0 = ref_unham8(raw[2 * i]), n1 = ref_unham8(raw[2 * i + 1]), pg = -1;
+      FOR_CONCRETE(k, 1, 14, packet, pg = ref_mot_page(k, i));
+      if (pg >= 0 && n0 >= 0 && n1 >= 0) for (k2 = 0; k2 < 256; k2++) if (k2 == pg) { exp_pop[k2] = n0 & 7; exp_drcs[k2] = n1 & 7; }
+    }
+    V_ASSERT(bytes_eq(MAG.pop_lut, exp_pop, 256), "mot_pop_lut_exact");
+    V_ASSERT(bytes_eq(MAG.drcs_lut, exp_drcs, 256), "mot_drcs_lut_exact");
+    V_ASSERT(zero_except(&MAG, sizeof MAG, offsetof(struct ttx_magazine, pop_lut), offsetof(struct ttx_magazine, pop_lut) + 512), "mot_lut_packets_write_only_the_luts");
+    V_REACH("lut");
+  } else if (packet == 0 || (packet >= 15 && packet <= 18) || packet >= 25) {
+    V_ASSERT(zero_except(&MAG, sizeof MAG, 0, 0), "mot_unused_packets_write_nothing");
+  } else {
+    /* 19/20/22/23: object page links, 21/24: DRCS links - never the look-up tables or the extension */
+    V_ASSERT(zero_except(&MAG, sizeof MAG, offsetof(struct ttx_magazine, pop_link), sizeof MAG), "mot_link_packets_write_only_links");
+  }
+  /* C03: a single error in a byte that was a code word is corrected: identical magazine state */
   flip(r2, 40, pos);
   FOR_CONCRETE(k, 0, 31, packet, parse_mot(&MAG2, r2, k));
   V_ASSERT(bytes_eq(&MAG, &MAG2, sizeof MAG), "mot_single_error_same_state");
   V_END();
 }
+#endif
 
 /* =============== parse_pop =============== */
+#ifdef G_CP
 static cache_page CP, CP2;
+#endif
 
+#if defined(G_CP)
 V_HARNESS(h_pop)
 {
   uint8_t raw[40], r2[40]; int packet; unsigned pos, d; vbi_bool a, b;
@@ -157,6 +212,17 @@ V_HARNESS(h_pop)
   if (pos / 8 == 0) put_ham8(raw, 1, 0, d); else put_ham24(raw, (pos / 8 - 1) / 3, d);
   memcpy(r2, raw, 40);
   FOR_CONCRETE(k, 1, 26, packet, a = parse_pop(&CP, raw, k));
+  { /* frame (EN 300 706 10.5.1): pointer packets 1..4 with odd designation write the 12 pointer pairs of that packet, every other
+       accepted packet its 13 triplets; a rejected packet writes nothing */
+    int des = ref_unham8(raw[0]), pk = packet; size_t lo = 0, hi = 0;
+    if (packet == 26 && des >= 0) pk = 26 + des;
+    if (a) {
+      if (pk <= 4 && (des & 1)) { lo = offsetof(cache_page, data.pop.pointer) + ((size_t) (pk - 1) * 26 + 2) * 2; hi = lo + 24 * 2; }
+      else { lo = offsetof(cache_page, data.pop.triplet) + (size_t) (pk - 3) * 13 * sizeof(struct ttx_triplet); hi = lo + 13 * sizeof(struct ttx_triplet); }
+    }
+    V_ASSERT(zero_except(&CP, sizeof CP, lo, hi), "pop_writes_only_its_pointers_or_triplets");
+    V_ASSERT(hi <= offsetof(cache_page, data.pop.triplet) + sizeof CP.data.pop.triplet, "pop_region_inside_tables");
+    V_ASSERT(!(a && pk <= 4 && (des & 1)) || hi <= offsetof(cache_page, data.pop.pointer) + sizeof CP.data.pop.pointer, "pop_pointer_region_inside_pointer_table"); }
   flip(r2, 40, pos);
   FOR_CONCRETE(k, 1, 26, packet, b = parse_pop(&CP2, r2, k));
   /* C03: the single error is corrected: same result, same page */
@@ -165,10 +231,14 @@ V_HARNESS(h_pop)
   if (a) V_REACH("clean");
   V_END();
 }
+#endif
 
 /* =============== parse_27 =============== */
+#ifdef G_DEC
 static vbi_decoder VBI;
+#endif
 
+#if defined(G_CP)
 V_HARNESS(h_27)
 {
   uint8_t raw[40], r2[40]; unsigned pos, mag0, d, des; vbi_bool a, b;
@@ -180,16 +250,23 @@ V_HARNESS(h_27)
   /* the protected unit that will be hit is error free; everything else arbitrary */
   if (pos / 8 >= 1) { if (des <= 3) put_ham8(raw, 40, pos / 8, d); else if (des <= 5 && pos / 8 <= 36) put_ham24(raw, (pos / 8 - 1) / 3, d); }
   memcpy(r2, raw, 40);
-  a = parse_27(&VBI, raw, &CP, (int) mag0);
+  a = parse_27((vbi_decoder *) 0, raw, &CP, (int) mag0);
+  { size_t lo = 0, hi = 0;     /* frame: designation d writes link[6d .. 6d+5] (and the FLOF flag for d = 0), nothing else */
+    if (des <= 5) { lo = offsetof(cache_page, data.unknown.link) + (size_t) des * 6 * sizeof(struct ttx_page_link); hi = lo + 6 * sizeof(struct ttx_page_link); }
+    { vbi_bool hf = CP.data.unknown.have_flof; CP.data.unknown.have_flof = 0;
+      V_ASSERT(zero_except(&CP, sizeof CP, lo, hi), "x27_writes_only_its_six_links");
+      CP.data.unknown.have_flof = hf; V_ASSERT(des == 0 || hf == 0, "x27_flof_flag_only_from_designation_0"); } }
   flip(r2, 40, pos);
-  b = parse_27(&VBI, r2, &CP2, (int) mag0);
+  b = parse_27((vbi_decoder *) 0, r2, &CP2, (int) mag0);
   V_ASSERT(a == b, "x27_single_error_same_result");
   V_ASSERT(bytes_eq(&CP, &CP2, sizeof CP), "x27_single_error_same_state");
   if (a && des <= 5) V_REACH("clean");
   V_END();
 }
+#endif
 
 /* C02(d): X/27/0 FLOF links produced by a reference encoder are what parse_27 stores */
+#if defined(G_CP)
 V_HARNESS(h_27_links)
 {
   uint8_t raw[40]; unsigned mag0, i, des; unsigned mag_link[6], page[6], subno[6]; vbi_bool r; unsigned ctl;
@@ -200,7 +277,7 @@ V_HARNESS(h_27_links)
   for (i = 0; i < 6; i++) { mag_link[i] = 1 + (in_u8() & 7); page[i] = in_u8(); subno[i] = in_u16() & 0x3F7F;
     ref_encode_link(raw + 1 + 6 * i, mag0, mag_link[i], page[i], subno[i]); }
   raw[37] = ref_ham8(ctl); raw[38] = in_u8(); raw[39] = in_u8();
-  r = parse_27(&VBI, raw, &CP, (int) mag0);
+  r = parse_27((vbi_decoder *) 0, raw, &CP, (int) mag0);
   V_ASSERT(r, "x27_links_accepted");
   for (i = 0; i < 6; i++) {
     V_ASSERT(CP.data.unknown.link[des * 6 + i].pgno == (int) (mag_link[i] * 256 + page[i]), "x27_link_pgno");
@@ -209,8 +286,10 @@ V_HARNESS(h_27_links)
   if (des == 0) V_ASSERT(CP.data.unknown.have_flof == (int) (ctl >> 3), "x27_have_flof");
   V_END();
 }
+#endif
 
 /* =============== parse_ait (TOP additional information table) =============== */
+#if defined(G_CP)
 V_HARNESS(h_ait)
 {
   uint8_t raw[40], r2[40]; int packet; unsigned pos;
@@ -222,15 +301,23 @@ V_HARNESS(h_ait)
   put_ham8(raw, 40, pos / 8, in_u8());
   memcpy(r2, raw, 40);
   FOR_CONCRETE(k, 0, 31, packet, parse_ait(&CP, raw, k));
+  { size_t lo = 0, hi = 0;     /* frame: packet n (1..23) writes title[2(n-1)] and title[2(n-1)+1] only */
+    if (packet >= 1 && packet <= 23) { lo = offsetof(cache_page, data.ait.title) + (size_t) (packet - 1) * 2 * sizeof(struct ttx_ait_title); hi = lo + 2 * sizeof(struct ttx_ait_title); }
+    V_ASSERT(zero_except(&CP, sizeof CP, lo, hi), "ait_writes_only_its_two_titles");
+    V_ASSERT(hi <= offsetof(cache_page, data.ait.title) + sizeof CP.data.ait.title, "ait_region_inside_title_table"); }
   flip(r2, 40, pos);
   FOR_CONCRETE(k, 0, 31, packet, parse_ait(&CP2, r2, k));
   V_ASSERT(bytes_eq(&CP, &CP2, sizeof CP), "ait_single_error_same_state");
   V_END();
 }
+#endif
 
 /* =============== lop_parity_check: C03 row parity gate =============== */
+#ifdef G_RP
 static struct raw_page RP;
+#endif
 
+#if defined(G_CP) && defined(G_RP)
 V_HARNESS(h_lop_parity)
 {
   unsigned row, i; int bad = 0;
@@ -262,6 +349,7 @@ V_HARNESS(h_lop_parity)
   V_ASSERT(bytes_eq(CP.data.lop.raw[0], CP2.data.lop.raw[0], 40), "parity_header_untouched");
   V_END();
 }
+#endif
 
 /* =============== vbi_decode_teletext dispatcher, per packet class (DESIGN R1) =============== */
 /* The packet address (first two Hamming bytes) is concrete from the runner grid (-DMAGN=0..7 -DPKTN=0..31):
@@ -273,6 +361,7 @@ V_HARNESS(h_lop_parity)
 #ifndef PKTN
 #define PKTN 26
 #endif
+#ifdef G_DEC
 static cache_network CN;
 
 static void ttx_state_init(void)
@@ -281,7 +370,9 @@ static void ttx_state_init(void)
   VBI.cn = &CN; VBI.event_mask = VBI_EVENT_TTX_PAGE | VBI_EVENT_NETWORK | VBI_EVENT_NETWORK_ID | VBI_EVENT_LOCAL_TIME | VBI_EVENT_PROG_ID;
   VBI.vt.max_level = VBI_WST_LEVEL_1p5;
 }
+#endif
 
+#if defined(G_DEC)
 V_HARNESS(h_ttx_rows)
 {
   uint8_t buf[42]; struct raw_page *rv = &VBI.vt.raw_page[MAGN & 7]; int fn, nt; unsigned pmag = ((unsigned) PKTN << 3) | (MAGN & 7);
@@ -318,9 +409,13 @@ V_HARNESS(h_ttx_rows)
   (void) des; (void) r; (void) nt0; (void) x26_0; (void) enh0;
   V_END();
 }
+#endif
 
 /* C03(3): an uncorrectable packet address changes nothing at all */
+#ifdef G_DECCOPY
 static vbi_decoder VBI_COPY;
+#endif
+#if defined(G_DEC) && defined(G_DECCOPY)
 V_HARNESS(h_ttx_addr_error)
 {
   uint8_t buf[42]; vbi_bool r;
@@ -337,8 +432,10 @@ V_HARNESS(h_ttx_addr_error)
            && put_n == 0 && ev_n == 0, "addr_error_changes_nothing");
   V_END();
 }
+#endif
 
 /* =============== parse_28_29 (X/28, M/29 enhancement) =============== */
+#if defined(G_DEC) && defined(G_CP)
 V_HARNESS(h_2829)
 {
   uint8_t raw[40], r2[40]; vbi_bool a, b; unsigned pos; int pk; struct ttx_extension e1, e2, m1, m2;
@@ -370,8 +467,10 @@ V_HARNESS(h_2829)
   V_REACH("clean");
   V_END();
 }
+#endif
 
 /* =============== TOP tables: BTT, MPT, MPT-EX (network page statistics) =============== */
+#if defined(G_DEC)
 V_HARNESS(h_btt)
 {
   uint8_t raw[40]; int packet; unsigned i;
@@ -387,6 +486,8 @@ V_HARNESS(h_btt)
     V_ASSERT(bytes_eq(&CN.initial_page, &zero_link, sizeof zero_link), "btt_initial_page_untouched"); }
   V_END();
 }
+#endif
+#if defined(G_DEC)
 V_HARNESS(h_mpt)
 {
   uint8_t raw[40]; int packet;
@@ -397,6 +498,8 @@ V_HARNESS(h_mpt)
   FOR_CONCRETE(k, 0, 31, packet, parse_mpt(&CN, raw, k));
   V_END();
 }
+#endif
+#if defined(G_DEC)
 V_HARNESS(h_mpt_ex)
 {
   uint8_t raw[40]; int packet;
@@ -406,8 +509,10 @@ V_HARNESS(h_mpt_ex)
   FOR_CONCRETE(k, 0, 31, packet, parse_mpt_ex(&CN, raw, k));
   V_END();
 }
+#endif
 
 /* =============== parse_mip (magazine inventory page, rows 1..14 + subpage table rows 15..25) =============== */
+#if defined(G_DEC) && defined(G_CP)
 V_HARNESS(h_mip)
 {
   const int mag8 = (MAGN & 7) ? (MAGN & 7) : 8;
@@ -420,6 +525,7 @@ V_HARNESS(h_mip)
   parse_mip(&VBI, &CP);
   V_END();
 }
+#endif
 
 /* =============== convert_drcs =============== */
 #ifndef DRCS_FREE_FROM
@@ -428,7 +534,10 @@ V_HARNESS(h_mip)
 #ifndef DRCS_HEAD_MODE
 #define DRCS_HEAD_MODE 0
 #endif
+#ifdef G_CPD
 static cache_page CPD;
+#endif
+#if defined(G_CPD)
 V_HARNESS(h_drcs)
 {
   unsigned i;
@@ -444,10 +553,12 @@ V_HARNESS(h_drcs)
     V_ASSERT(bytes_eq(m0, CPD.data.drcs.mode, 48), "drcs_mode_table_untouched"); }
   V_END();
 }
+#endif
 
 /* =============== page header (packet X/0): field decoding and containment, C03(3) =============== */
 /* vt.current = NULL (no page in progress to store), cache lookup misses: the header's own effect is isolated.
    Reference: EN 300 706 9.3.1: page units/tens, S1..S4 with C4 C5 C6, C7..C14 - eight Hamming 8/4 bytes. */
+#if defined(G_DEC)
 V_HARNESS(h_ttx_header)
 {
   uint8_t buf[42]; struct raw_page *rv = &VBI.vt.raw_page[MAGN & 7]; unsigned pmag = (MAGN & 7); vbi_bool r; unsigned i;
@@ -488,6 +599,7 @@ V_HARNESS(h_ttx_header)
   }
   V_END();
 }
+#endif
 
 /* =============== row parity gate with X/26 enhancement data (C03: "positions overridden by X/26 enhancement data excepted") =============== */
 /* Reference (EN 300 706 12.3): row address triplets (address 40..63) in modes "full row colour" (0x01) and "set active
@@ -500,6 +612,7 @@ V_HARNESS(h_ttx_header)
 #define ROWSEL_X ROWSEL
 #endif
 #define NX26 3
+#if defined(G_CP) && defined(G_RP)
 V_HARNESS(h_lop_parity_x26)
 {
   unsigned i, t, arow = 0; int overridden[40]; int blocked = 0;
@@ -535,3 +648,4 @@ V_HARNESS(h_lop_parity_x26)
   }
   V_END();
 }
+#endif
